@@ -31,7 +31,7 @@ func init() {
 		Batches:     tiered(240, 3840),
 		Run:         runC14,
 		Exhaustive:  func(string) bool { return false },
-		Timeout:     timeoutFor(8*time.Minute, 40*time.Minute),
+		Timeout:     timeoutFor(3*time.Minute, 40*time.Minute),
 	})
 }
 
